@@ -3,8 +3,10 @@ package main
 import (
 	"fmt"
 	"reflect"
+	"time"
 
 	"github.com/mithrandie/csvq/lib/query"
+	"github.com/mithrandie/csvq/lib/value"
 )
 
 // firstPointer: the address of the first pointer reachable through struct fields (the *SyncMap inside a
@@ -75,4 +77,32 @@ func poolProbe(live *query.ReferenceScope, n int) (string, bool) {
 		}
 	}
 	return problem, problem != ""
+}
+
+// valuePoolProbe allocates n values of each pooled type and checks that they are pairwise distinct objects: a
+// value that was released twice sits in the pool twice and is handed out to two allocations.  The probe keeps
+// what it allocates (nothing is given back), so one double release is reported once.
+func valuePoolProbe(n int) string {
+	seen := map[interface{}]int{}
+	check := func(kind string, i int, p interface{}) string {
+		if j, dup := seen[p]; dup {
+			return fmt.Sprintf("allocations %d and %d of a %s are the same object", j, i, kind)
+		}
+		seen[p] = i
+		return ""
+	}
+	problem := ""
+	for i := 0; i < n; i++ {
+		for _, r := range []string{
+			check("Datetime", i, value.NewDatetime(time.Unix(int64(1000000+i), 0))),
+			check("String", i, value.NewString(fmt.Sprintf("probe-%d", i))),
+			check("Integer", i, value.NewInteger(int64(700000+i))),
+			check("Float", i, value.NewFloat(float64(i)+0.5)),
+		} {
+			if r != "" && problem == "" {
+				problem = r
+			}
+		}
+	}
+	return problem
 }
